@@ -16,6 +16,8 @@ SKIP_TRAITS = {"std::fmt::Debug", "std::hash::Hash", "std::cmp::Eq", "std::clone
 
 def is_entry(fn):
     p = fn["path"]
+    if fn["sp"].startswith("src/array/vec/vec_array.rs") and os.environ.get("OHSA_VEC"):
+        return True
     if fn["sp"].startswith("src/array/vec/"):
         return False   # the Vec backend is axiomatised (array contract), not analysed
     if p.startswith("semifinite::arrow") or "semifinite::arrow::SemifiniteArrow" in p:
